@@ -1098,9 +1098,73 @@ func (e *Engine) newObligation(st *State, kind, clause string, goal Term, pos to
 	return ob
 }
 
+// pkgAxiomSyms: for every contract-file axiom assumed at function entry, the
+// uninterpreted symbols it is about. buildQuery leaves an axiom out when none
+// of them occurs in the rest of the query (dropping a hypothesis is sound; it
+// keeps unrelated quantifiers out of the solver's way).
+var pkgAxiomSyms = map[string][]string{}
+
+func axiomSymbols(text string) []string {
+	var out []string
+	for _, s := range symbolsIn(text) {
+		if strings.HasPrefix(s, "|pure:") || strings.HasPrefix(s, "|pm:") || strings.HasPrefix(s, "pure:") || strings.HasPrefix(s, "pm:") ||
+			s == "runeCount" || s == "runeAt" || s == "runeOff" || s == "rune2str" {
+			out = append(out, s)
+		}
+	}
+	return out
+}
+
+func filterAxioms(pc []Term, negGoal Term) []Term {
+	if len(pkgAxiomSyms) == 0 {
+		return pc
+	}
+	var rest strings.Builder
+	var axs []Term
+	for _, p := range pc {
+		if _, ok := pkgAxiomSyms[p.S]; ok {
+			axs = append(axs, p)
+		} else {
+			rest.WriteString(p.S)
+			rest.WriteByte(' ')
+		}
+	}
+	if len(axs) == 0 {
+		return pc
+	}
+	rest.WriteString(negGoal.S)
+	text := rest.String()
+	keep := map[string]bool{}
+	for changed := true; changed; {
+		changed = false
+		for _, a := range axs {
+			if keep[a.S] {
+				continue
+			}
+			for _, sy := range pkgAxiomSyms[a.S] {
+				if strings.Contains(text, sy) {
+					keep[a.S] = true
+					text += " " + a.S
+					changed = true
+					break
+				}
+			}
+		}
+	}
+	var out []Term
+	for _, p := range pc {
+		if syms, ok := pkgAxiomSyms[p.S]; ok && len(syms) > 0 && !keep[p.S] {
+			continue
+		}
+		out = append(out, p)
+	}
+	return out
+}
+
 func (e *Engine) buildQuery(pc []Term, negGoal Term) string {
 	var sb strings.Builder
 	var texts []string
+	pc = filterAxioms(pc, negGoal)
 	for _, p := range pc {
 		texts = append(texts, p.S)
 	}
@@ -1258,7 +1322,9 @@ func (e *Engine) verifyCase(fn *ssa.Function, c *Contract, cs *Case, res *FuncRe
 	if ps := e.specOf(pkgOf(fn)); ps != nil {
 		for _, ax := range ps.Lemmas {
 			if ax.Axiom {
-				st.assume(e.evalSpecBool(env, ax.Expr))
+				at := e.evalSpecBool(env, ax.Expr)
+				pkgAxiomSyms[at.S] = axiomSymbols(at.S)
+				st.assume(at)
 			}
 		}
 	}
